@@ -172,6 +172,10 @@ def rollβ (β1 β2 : UInt32) : UInt32 := β1 + M * β2
 /-- Part 2: weak hash of the window (rolling or from scratch); returns the state and `skip`. -/
 def hashStep (src : Content) (s : DState) (sumHead : Nat) : DState × Bool :=
   if s.rolling then
+    if sumHead = s.sumTail then
+      -- the input ended exactly where the buffer was wrapped: no byte to push, nothing to look up
+      (s, true)
+    else
     let βold := s.β
     let αPush := (src.get (s.base + sumHead - 1)).toUInt32
     let β1 := rollβ1 s.β1 s.αPop αPush
